@@ -44,6 +44,10 @@ def cases(tier, variants):
             yield dict(c, sc=s, tgt=1, upd=1)
             yield dict(c, sc=s, tgt=0, user="samebuf")
             yield dict(c, sc=s, tgt=0, user="constbuf")
+    # letter: the scaler hands its factor back as a numpy 0-d array
+    for c in F.convex_cases(2, variants, (3,), fams=("quart",), hesses=("rot2",)):
+        for s in (0, 3):
+            yield dict(c, sc=s, tgt=0, sret="arr0")
     # finite-difference gradient with power-of-two scales (s*(f(x+h)-f(x))/h is then
     # bit-identical to the difference quotient of s*f)
     for c in F.convex_cases(2, variants, (3,), fams=("qp",), hesses=("rot2",)):
@@ -54,6 +58,11 @@ def cases(tier, variants):
     for c in F.convex_cases(2, variants, (3,), fams=("quart",), hesses=("rot2",)):
         for k in (0, 2):
             yield dict(c, part="restart1", k=k)
+            # ... and with s != 1: restart with the scaler == restart on s*f, from the
+            # state of a run on s*f; unscaled target reached later / already met
+            for rs in (0.1, 8.0):
+                for tg in (0, 1, 2):
+                    yield dict(c, part="restart1", k=k, rs=rs, tgt=tg)
     for v in variants:
         for fam in F.NONCONVEX:
             for n in (2, 3):
@@ -76,12 +85,17 @@ def run(case):
     x0c = np.clip(p.x0, p.lb, p.ub)
     g0 = np.asarray(p.g(x0c), float)
     s = SCALES[case["sc"]]
+    packaged = False
     if s == "packaged":
         if F.pgnorm(x0c, g0, p.lb, p.ub) == 0:
             return dict(viol=[], outcome="zero_pg_skipped", stats={"skipped": 1})
-        s = float(get_gradient_projection_unit_scaling(x0c, g0, p.lb, p.ub))
+        # the factor the packaged scaler is documented to return, computed by the harness:
+        # 1 / |P(x - g) - x|_inf (run A calls the packaged function itself)
+        with np.errstate(divide="ignore"):
+            s = float(1.0 / np.max(np.abs(np.clip(x0c - g0, p.lb, p.ub) - x0c)))
         if not np.isfinite(s) or s <= 0:
             return dict(viol=[], outcome="scaler_undefined_skipped", stats={"skipped": 1})
+        packaged = True
     kw = dict(bounds=p.bounds, maxcor=case["maxcor"], maxiter=25, ftol=1e-12, gtol=1e-9)
     tgt = None
     if case["tgt"]:
@@ -102,6 +116,12 @@ def run(case):
     def scaler(x, g, lb, ub):
         calls.append((np.array(x, copy=True), np.array(g, copy=True), np.array(lb, copy=True),
                       np.array(ub, copy=True)))
+        if packaged:
+            return get_gradient_projection_unit_scaling(x, g, lb, ub)
+        # letter: how the factor is handed back (float, numpy 0-d array, numpy float32 of
+        # a value exactly representable in single precision)
+        if case.get("sret") == "arr0":
+            return np.array(s)
         return s
     user = case.get("user", "pure")
     if user == "constbuf":
@@ -170,33 +190,60 @@ def run(case):
 
 
 def run_restart1(p, case):
+    """restart letter: checkpoint = result of k iterations on the explicitly scaled
+    objective s*f; restart A on f with a scaler returning s, restart B on s*f without
+    scaler (for s = 1 the checkpoint is an ordinary one and B is the plain restart)"""
     import copy
     from lbfgsb import minimize_lbfgsb
+    s = float(case.get("rs", 1.0))
+    fs = (lambda x: p.f(x) * s) if s != 1.0 else p.f
+    gs = (lambda x: np.asarray(p.g(x), float) * s) if s != 1.0 else p.g
     kw = dict(bounds=p.bounds, maxcor=case["maxcor"], ftol=0.0, gtol=1e-10)
-    ck = minimize_lbfgsb(x0=p.x0.copy(), fun=p.f, jac=p.g, maxiter=case["k"], **kw)
+    ck = minimize_lbfgsb(x0=p.x0.copy(), fun=fs, jac=gs, maxiter=case["k"], **kw)
     if ck.nit != case["k"]:
         return dict(viol=[], outcome="parent_stopped_early", stats={"skipped": 1})
+    tgt = None
+    if case.get("tgt"):
+        # unscaled target between the objective values of iterations k+1 and k+2 of the
+        # continued run (tgt=1), or just ABOVE the checkpoint's unscaled value (tgt=2: met
+        # at the restart point itself)
+        vals = []
+        minimize_lbfgsb(x0=p.x0.copy(), fun=p.f, jac=p.g, maxiter=case["k"] + 3,
+                        callback=lambda x, st: vals.append(float(st.fun)) and False, **kw)
+        k = case["k"]
+        if case["tgt"] == 2:
+            tgt = float(ck.fun) / s + 1e-3 * (1.0 + abs(float(ck.fun) / s))
+        elif len(vals) >= k + 2 and vals[k] - vals[k + 1] > 1e-6 * (1 + abs(vals[k + 1])):
+            tgt = 0.5 * (vals[k] + vals[k + 1])
+        else:
+            return dict(viol=[], outcome="no_target_slot_skipped", stats={"skipped": 1})
     viol, calls = [], []
 
     def scaler(x, g, lb, ub):
         calls.append((np.array(x, copy=True), np.array(g, copy=True)))
-        return 1.0
-    oa, ob = F.Obs(p.f, p.g, p.lb, p.ub), F.Obs(p.f, p.g, p.lb, p.ub)
+        return s
+    oa, ob = F.Obs(p.f, p.g, p.lb, p.ub), F.Obs(fs, gs, p.lb, p.ub)
     a = minimize_lbfgsb(x0=np.array(ck.x, copy=True), fun=oa.fun, jac=oa.jac,
                         checkpoint=copy.deepcopy(ck), maxiter=case["k"] + 3,
-                        gradient_scaler=scaler, **kw)
+                        gradient_scaler=scaler, ftarget=tgt, **kw)
     b = minimize_lbfgsb(x0=np.array(ck.x, copy=True), fun=ob.fun, jac=ob.jac,
-                        checkpoint=copy.deepcopy(ck), maxiter=case["k"] + 3, **kw)
+                        checkpoint=copy.deepcopy(ck), maxiter=case["k"] + 3,
+                        ftarget=(None if tgt is None else tgt * s), **kw)
     bad = H.same_state(a, b)
     if bad or str(a.message) != str(b.message):
-        viol.append(V("restart_with_unit_scaler_differs_from_restart_without", fields=bad))
+        viol.append(V("restart_with_scaler_differs_from_restart_on_scaled_objective",
+                      fields=bad, s=s, msg_a=str(a.message), msg_b=str(b.message)))
     if oa.calls != ob.calls:
         viol.append(V("evaluation_logs_differ", na=len(oa.calls), nb=len(ob.calls)))
     if len(calls) != 1:
         viol.append(V("scaler_called_n_times", n=len(calls)))
     elif not (np.array_equal(calls[0][0], ck.x) and np.array_equal(calls[0][1], ck.jac)):
         viol.append(V("scaler_called_with_wrong_arguments", x=calls[0][0], g=calls[0][1]))
-    return dict(viol=viol, outcome="restart1", nontrivial=core.case_hash(case))
+    if tgt is not None and "TARGET" in str(a.message):
+        if not p.f(np.asarray(a.x, float)) <= tgt:
+            viol.append(V("target_tested_on_scaled_value", unscaled=p.f(np.asarray(a.x, float)),
+                          ftarget=tgt))
+    return dict(viol=viol, outcome=f"restart1|{a.message}", nontrivial=core.case_hash(case))
 
 
 def run_fd(p, case):
